@@ -73,4 +73,89 @@ WildEnds(ts, i, s, I, strict) ==
                                     ELSE AsciiLower(s[j + 1]) = AsciiLower(ts[i].c))}},
               strict)
 WildMatch(p, s, strict) == Len(s) \in WildEnds(WildToks(p, 1), 1, s, {0}, strict)
+
+----------------------------------------------------------------------------
+(* Rendering a regex AST as the pattern text handed to the regex engine (ASCII bytes).        *)
+(* Literal bytes that are metacharacters are backslash-escaped; bytes outside printable       *)
+(* ASCII are written \xHH; class members ] \ ^ - are escaped.                                 *)
+HexDigit(n) == IF n < 10 THEN 48 + n ELSE 87 + n
+EscX(b) == <<92, 120, HexDigit(b \div 16), HexDigit(b % 16)>>
+Meta == {92, 46, 43, 42, 63, 40, 41, 124, 91, 93, 123, 125, 94, 36, 35, 38, 45, 126}
+RenderByte(b) == IF b < 32 \/ b > 126 THEN EscX(b) ELSE IF b \in Meta THEN <<92, b>> ELSE <<b>>
+ClsMeta == {92, 93, 91, 94, 45, 38, 126}
+RenderClsByte(b) == IF b < 32 \/ b > 126 THEN EscX(b) ELSE IF b \in ClsMeta THEN <<92, b>> ELSE <<b>>
+RenderRange(r) == IF r.lo = r.hi THEN RenderClsByte(r.lo) ELSE RenderClsByte(r.lo) \o <<45>> \o RenderClsByte(r.hi)
+RECURSIVE RenderPat(_)
+RenderPat(re) ==
+  IF re.k = "empty" THEN <<>>
+  ELSE IF re.k = "lit" THEN RenderByte(re.c)
+  ELSE IF re.k = "any" THEN <<46>>
+  ELSE IF re.k = "cls" THEN <<91>> \o (IF re.neg THEN <<94>> ELSE <<>>)
+                            \o FlatSeq(Strict([i \in 1..Len(re.rs) |-> RenderRange(re.rs[i])])) \o <<93>>
+  ELSE IF re.k = "cat" THEN RenderPat(re.a) \o RenderPat(re.b)
+  ELSE IF re.k = "alt" THEN RenderPat(re.a) \o <<124>> \o RenderPat(re.b)
+  ELSE IF re.k = "grp" THEN <<40>> \o RenderPat(re.a) \o <<41>>
+  ELSE IF re.k = "star" THEN RenderPat(re.a) \o <<42>>
+  ELSE IF re.k = "plus" THEN RenderPat(re.a) \o <<43>>
+  ELSE IF re.k = "opt" THEN RenderPat(re.a) \o <<63>>
+  ELSE IF re.k = "bol" THEN <<94>>
+  ELSE <<36>>                                                           \* eol
+
+(* well-formedness of the AST shapes the renderer is unambiguous for: repetition operands are   *)
+(* single atoms, concatenation operands are not bare alternations                               *)
+IsAtom(re) == re.k \in {"lit", "any", "cls", "grp"}
+RECURSIVE ReWF(_)
+ReWF(re) ==
+  IF re.k \in {"star", "plus", "opt"} THEN IsAtom(re.a) /\ ReWF(re.a)
+  ELSE IF re.k = "cat" THEN re.a.k # "alt" /\ re.b.k # "alt" /\ re.a.k # "empty" /\ re.b.k # "empty" /\ ReWF(re.a) /\ ReWF(re.b)
+  ELSE IF re.k = "alt" THEN re.a.k # "empty" /\ re.b.k # "empty" /\ ReWF(re.a) /\ ReWF(re.b)
+  ELSE IF re.k = "grp" THEN re.a.k # "empty" /\ ReWF(re.a)
+  ELSE IF re.k = "cls" THEN Len(re.rs) > 0 /\ \A i \in 1..Len(re.rs) : re.rs[i].lo <= re.rs[i].hi
+  ELSE TRUE
+
+(* L2: the quoted-regex scanner (lex_regex_from_literal), on the characters after the opening  *)
+(* quote: returns [ok, pat, n] with n = characters consumed including the closing quote         *)
+RECURSIVE ScanQ(_, _, _, _)
+ScanQ(s, i, incls, acc) ==
+  IF i > Len(s) THEN [ok |-> FALSE]                                   \* missing ending quote
+  ELSE LET c == s[i] IN
+       IF c = 92
+       THEN IF i + 1 > Len(s) THEN ScanQ(s, i + 1, incls, acc)       \* lone trailing backslash: dropped, then EOF
+            ELSE LET d == s[i + 1] IN
+                 IF incls \/ d # 34 THEN ScanQ(s, i + 2, incls, acc \o <<92, d>>)
+                 ELSE ScanQ(s, i + 2, incls, Append(acc, d))
+       ELSE IF c = 34 /\ ~incls THEN [ok |-> TRUE, pat |-> acc, n |-> i]
+       ELSE IF c = 91 /\ ~incls THEN ScanQ(s, i + 1, TRUE, Append(acc, 91))
+       ELSE IF c = 93 /\ incls THEN ScanQ(s, i + 1, FALSE, Append(acc, 93))
+       ELSE ScanQ(s, i + 1, incls, Append(acc, c))
+ScanQuoted(body) == ScanQ(body, 1, FALSE, <<>>)
+
+(* L1 for quoted patterns: the source is the pattern with every quote that lies outside a       *)
+(* character class written as backslash-quote (escape pairs are copied verbatim)               *)
+RECURSIVE QuoteSrc(_, _, _)
+QuoteSrc(p, i, incls) ==
+  IF i > Len(p) THEN <<>>
+  ELSE IF p[i] = 92 /\ i + 1 <= Len(p) THEN <<92, p[i + 1]>> \o QuoteSrc(p, i + 2, incls)
+  ELSE IF p[i] = 34 /\ ~incls THEN <<92, 34>> \o QuoteSrc(p, i + 1, incls)
+  ELSE IF p[i] = 91 /\ ~incls THEN <<91>> \o QuoteSrc(p, i + 1, TRUE)
+  ELSE IF p[i] = 93 /\ incls THEN <<93>> \o QuoteSrc(p, i + 1, FALSE)
+  ELSE <<p[i]>> \o QuoteSrc(p, i + 1, incls)
+QuotedSource(p) == QuoteSrc(p, 1, FALSE) \o <<34>>                     \* body followed by the closing quote
+
+(* corrupted (invalid) patterns of the catalogue *)
+Corrupt(p, bad) == IF bad = "unclosed-group" THEN <<40>> \o p
+                   ELSE IF bad = "unclosed-class" THEN p \o <<91, 97>>
+                   ELSE IF bad = "dangling-star" THEN <<42>> \o p
+                   ELSE IF bad = "trailing-backslash" THEN p \o <<92>>
+                   ELSE IF bad = "bad-repeat" THEN p \o <<97, 123, 50, 44, 49, 125>>      \* a{2,1}
+                   ELSE p
+
+(* consistency of a regex token produced by a generator: the pattern is the rendering of the    *)
+(* AST (possibly corrupted) and, for the quoted form, the scanner maps the source to it         *)
+RegexTokOk(tok) ==
+  /\ ReWF(tok.re)
+  /\ tok.pat = Corrupt(RenderPat(tok.re), tok.bad)
+  /\ IF tok.form = "q" /\ tok.bad = "none"
+     THEN LET r == ScanQuoted(tok.body) IN r.ok /\ r.pat = tok.pat /\ r.n = Len(tok.body)
+     ELSE TRUE
 =============================================================================
